@@ -23,7 +23,7 @@ RULE = (
 ASSUMPTIONS = [
     "freshness is decided as 'the registered RNG / key generator is consulted once per file / per ECC block and its output is what is used'; entropy of os.urandom is out of scope",
 ]
-REQUIRED_CLASSES = ["agree.blocks>=2", "agree.keyless", "agree.ecc", "splice.body=K1", "splice.body=K2", "splice.ecc", "splice.same-tag", "splice.unopened-between", "splice.empty-key", "splice.short-key", "passthrough.unopened>=1", "passthrough.unopened-ends00", "passthrough.unknown-tag-block", "rekey.enc-component", "history.writes>=2", "history.keyless>=2"]
+REQUIRED_CLASSES = ["agree.blocks>=2", "agree.keyless", "agree.ecc", "splice.body=K1", "splice.body=K2", "splice.ecc", "splice.same-tag", "splice.unopened-between", "splice.empty-key", "splice.short-key", "splice.check_cmac=off", "passthrough.unopened>=1", "passthrough.unopened-ends00", "passthrough.unknown-tag-block", "rekey.enc-component", "history.writes>=2", "history.keyless>=2"]
 
 B2 = sut.B2
 
@@ -123,6 +123,8 @@ def check_splice(case, rec):
     k1, k2 = case["k1"], case["k2"]
     body_key = k1 if case["body"] == 1 else k2
     rec.cls("splice.body=K%d" % case["body"])
+    if not case.get("check_cmac", True):
+        rec.cls("splice.check_cmac=off")
     if any(b["kind"] == "ecc" for b in blocks):
         rec.cls("splice.ecc")
     if len([b for b in blocks if b["kind"] == "ecc"]) >= 2:
@@ -147,7 +149,7 @@ def check_splice(case, rec):
     if case.get("reverse_decryptors"):
         decs.reverse()
     try:
-        g = sut.Bec2File.read_file(io.StringIO(M.text([], binary)), decs)
+        g = sut.Bec2File.read_file(io.StringIO(M.text([], binary)), decs, check_cmac=bool(case.get("check_cmac", True)))
     except Exception:
         return
     odd = ([b for b in blocks if b.get("raw_payload") is not None] or blocks[:1])[0]
@@ -374,7 +376,7 @@ def strat_splice(draw, tier="quick"):
     if k1 == k2:
         k2 = bytes([k2[0] ^ 1]) + k2[1:]
     return dict(blocks=blocks, k1=k1, k2=k2, body=draw(st.sampled_from([1, 2])), blob=draw(st.binary(min_size=1, max_size=40)), eph=draw(st.integers(1, 1 << 200)),
-                reverse_decryptors=draw(st.booleans()))
+                reverse_decryptors=draw(st.booleans()), check_cmac=draw(st.sampled_from([True, True, False])))
 
 
 @st.composite
